@@ -24,6 +24,10 @@ COMPONENT_FAULTS = [
     ('math-cn-without-units', '<variable name="zz" units="second"/>' + MATH % ('<ci>zz</ci>', '<cn>1</cn>'), ['MATH_CN_UNITS_ATTRIBUTE']),
     ('math-cn-unknown-units', '<variable name="zz" units="second"/>' + MATH % ('<ci>zz</ci>', '<cn cellml:units="no_units">1</cn>'), ['MATH_CN_UNITS_ATTRIBUTE_REFERENCE', 'MATH_CN_UNITS_ATTRIBUTE']),
     ('math-unsupported-element', '<variable name="zz" units="second"/>' + MATH % ('<ci>zz</ci>', '<apply><foo/><ci>zz</ci></apply>'), ['MATH_MATHML', 'MATH_CHILD']),
+    ('math-empty-ci', '<variable name="zz" units="second"/>' + MATH % ('<ci>zz</ci>', '<apply><plus/><ci>zz</ci><ci></ci></apply>'), ['MATH_CI_VARIABLE_REFERENCE', 'MATH_MATHML']),
+    ('math-empty-ci-in-bvar', '<variable name="zz" units="second"/><variable name="zt" units="second"/>' + MATH % ('<apply><diff/><bvar><ci></ci></bvar><ci>zz</ci></apply>', '<ci>zt</ci>'), ['MATH_CI_VARIABLE_REFERENCE', 'MATH_MATHML']),
+    ('math-empty-ci-in-degree', '<variable name="zz" units="second"/>' + MATH % ('<ci>zz</ci>', '<apply><root/><degree><ci></ci></degree><ci>zz</ci></apply>'), ['MATH_CI_VARIABLE_REFERENCE', 'MATH_MATHML']),
+    ('math-unsupported-element-in-logbase', '<variable name="zz" units="second"/>' + MATH % ('<ci>zz</ci>', '<apply><log/><logbase><apply><foo/><ci>zz</ci></apply></logbase><ci>zz</ci></apply>'), ['MATH_MATHML', 'MATH_CHILD']),
     ('math-cn-not-a-number', '<variable name="zz" units="second"/>' + MATH % ('<ci>zz</ci>', '<cn cellml:units="second">one</cn>'), ['MATH_CN_FORMAT', 'MATH_CN_BASE10']),
     ('reset-without-order', '<variable name="ra" units="second"/><variable name="rb" units="second"/><reset variable="ra" test_variable="rb">' + TV % CN + RV % CN + '</reset>', ['RESET_ORDER_VALUE', 'RESET_ATTRIBUTE_REQUIRED']),
     ('reset-without-test-value', '<variable name="ra" units="second"/><variable name="rb" units="second"/><reset variable="ra" test_variable="rb" order="901">' + RV % CN + '</reset>', ['RESET_TEST_VALUE_CHILD', 'RESET_CHILD', 'TEST_VALUE_CHILD', 'TEST_VALUE_ELEMENT']),
